@@ -11,7 +11,8 @@ CLAIMS = {
         category="proof",
         text="Static proof of the structural clause: (R1) every static-storage variable of the library is const, has zero "
              "write sites (AST and IR agree) or is an allow-listed C-ABI slot; no function-local statics; (R2) only the "
-             "path-loading functions store into Vertex objects and none is reachable from the execution/output phase; "
+             "path-loading functions store into Vertex objects and none is reachable from the execution/output phase; (R2b) "
+             "ReuseableDataContainer64 has no mutable field and nothing outside its own methods stores through it; "
              "(R3) every external reachable from library code is in a frozen list of thread-safe functions; no "
              "pointer-order or hash-order dependence. Quantifies over all schedules because it shows there is no shared "
              "mutable location to race on.",
@@ -28,7 +29,8 @@ CLAIMS["C01"] = dict(
          "partitions against oracles derived from the definition of fill rules and set operations: (1) the contribution table "
          "IsContributingClosed (1300 reachable cells); (2) the winding-count update when two edges cross (14348 cells) and the count given to an "
          "inserted edge; (3) IntersectEdges as a whole: from every consistent state the contour calls it makes leave exactly the edges on the "
-         "solution boundary carrying output (11076 cells). A wrong reachable cell is a wrong region for some input in general position; the "
+         "solution boundary carrying output (11076 cells); (4) no product is formed in signed 64-bit arithmetic (coordinates up to 2^61). "
+         "A wrong reachable cell is a wrong region for some input in general position; the "
          "converse (the behaviour of C01) is NOT decided.",
     note="Assumes the code's stated invariants for wind_cnt / wind_cnt2 and that AEL neighbours are the geometric neighbours. AEL ordering, "
          "intersection-point computation, joins, horizontals, output assembly and tolerances are outside the clause.",
@@ -64,7 +66,8 @@ CLAIMS["C07"] = dict(
     text="Three necessary structural clauses decided statically: (i) no member/outer local written while offsetting one path or group is read "
          "while offsetting the next (E2 loop rule, with and without delta callback); (ii) outside the EndType::Polygon branch delta is only read "
          "through abs(), hence +delta == -delta by construction; (iii) start/end cap dispatch tables extracted by interpreting both switches for "
-         "every EndType equal Butt->DoBevel(i,i), Round->DoRound(i,i,PI), Square->DoSquare(i,i) and agree at both ends.",
+         "every EndType equal Butt->DoBevel(i,i), Round->DoRound(i,i,PI), Square->DoSquare(i,i) and agree at both ends; (iv) Group::Group strips a "
+         "closing vertex only for the closed end types Polygon and Joined (for open ends it is the end point of the last segment).",
     note="Stroke geometry, cap extents, circles for points are NOT decided. Stale normals passed to a delta callback (D12) are reported under C12.",
     technique="static analysis: loop-carried-state dataflow + AST rule on reads of delta + interpreted dispatch tables",
     design="§3 E2/E3, §4 C07", engine="E2")
@@ -75,7 +78,8 @@ CLAIMS["C17"] = dict(
          "function of the CPaths / CPath / CPolyPath layouts is extracted from the AST and must agree, with EXPORT_VERTEX_DIMENSIONALITY 2 and 3; the "
          "stored count counts exactly the written records; the first element is the allocated length; (FORWARD) each of the 76 exported parameters "
          "reaches the native parameter of its meaning, resolved by declaration (constructor slots judged by parameter name), none of another meaning, "
-         "none dropped; (SCALE) dimensional analysis of the D exports. A layout mismatch is simultaneously a round-trip failure and an out-of-bounds access.",
+         "none dropped; (SCALE) dimensional analysis of the D exports; (Z-CODEC, USINGZ) every store of Z into a slot and every load from it is a "
+         "bit copy (Reinterpret or same type) so that writers and readers agree. A layout mismatch is simultaneously a round-trip failure and an out-of-bounds access.",
     note="Does not decide that the native call returns the right result. Shapes outside the supported loop nest make the run analysis-broken (exit 2).",
     technique="static analysis: symbolic element-count shapes of marshalling code + parameter-flow forwarding table + dimensional analysis",
     design="§3 E4/E8, §4 C17", engine="E4")
@@ -93,8 +97,8 @@ CLAIMS["C05"] = dict(
     category="other",
     text="Static decision of necessary clauses: the open-path contribution table (IsContributingOpen) and the toggle condition applied where an "
          "open edge crosses a closed edge (prefix of IntersectEdges) are extracted by abstract interpretation over a verified-uniform partition and "
-         "equal the definition on every reachable cell; AddPaths_ drops a trailing vertex equal to the first only for closed paths; BuildPath64 and "
-         "BuildPathD treat open paths alike.",
+         "equal the definition on every reachable cell; AddPaths_ drops a trailing vertex equal to the first vertex of the same path only for closed "
+         "paths; DoHorizontal keeps its end-of-segment tests active for a horizontal open end; BuildPath64 and BuildPathD treat open paths alike.",
     note="Positions of the cuts, lengths and independence of the closed solution are NOT decided.",
     technique="static analysis: abstract interpretation of decision code over finite partitions + sibling identity",
     design="§3 E3/E6, §4 C05", engine="E3")
@@ -162,18 +166,23 @@ CLAIMS["C04"] = dict(
     design="§3 E10, §4 C04", engine="E10")
 CLAIMS["C10"] = dict(
     category="other",
-    text="Static decision of four necessary clauses for all inputs: non-emptiness guards on every first/last-element access to input containers, "
+    text="Static decision of necessary clauses for all inputs: non-emptiness guards on every first/last-element access to input containers, "
          "interprocedurally from the public entries (found and, since the repair, proves the absence of the empty-path crash in ClipperOffset); "
          "operator new unreachable from every destructor / noexcept function, no catch handler, no nothrow-new (so bad_alloc reaches the caller); no "
-         "product in signed 64-bit arithmetic; sort comparators are strict weak orders.",
-    note="Termination, bounds of computed indices, lifetime of OutPt/Active nodes, overflow of sums, destructor safety after a mid-operation throw "
-         "are NOT decided.",
-    technique="static analysis: size-fact dataflow with preconditions + IR call-graph reachability + type lint + comparator axioms",
-    design="§3 E9, §4 C10", engine="E9")
+         "product in signed 64-bit arithmetic; sort comparators are strict weak orders; edges handed to AddOutPt & co. carry output (HOT.guard); no "
+         "pointer into RectClip's node store survives its reset; and, for the allocation-failure clause, every output-vertex ring is link-consistent "
+         "at every statement that can throw and at every exit of the 14 functions that re-link rings (symbolic heap, all paths), and only "
+         "provably orphaned vertices are deleted - which is what ~ClipperBase needs to free the rings after a std::bad_alloc.",
+    note="Termination, bounds of computed indices, lifetime of Active nodes, disjointness of the rings of different OutRecs, overflow of sums "
+         "are NOT decided. LINK assumes distinct access paths denote distinct vertices.",
+    technique="static analysis: size-fact dataflow with preconditions + IR call-graph reachability + type lint + comparator axioms + symbolic-heap "
+              "path execution of ring-linking functions",
+    design="§3 E9, §4 C10, §9.1 E13", engine="E9")
 CLAIMS["C20"] = dict(
     category="other",
     text="Static decision of necessary clauses: TrimCollinear, SimplifyPath, RamerDouglasPeucker and StripNearEqual append only elements of the "
-         "input (never a computed vertex), inside loops through forward-only cursors; keep/remove flags are monotone; StripDuplicates only erases. "
+         "input (never a computed vertex), inside loops through forward-only cursors; keep/remove flags are monotone; StripDuplicates only erases; "
+         "TrimCollinear's corner test is made against the last kept vertex; SimplifyPath's pinned end distances are never overwritten. "
          "The one flag-clearing site (RDP) is a genuine defect recorded as a known finding (D11).",
     note="Epsilon guarantees, area preservation, idempotence and the exact corner set are NOT decided.",
     technique="static analysis: AST rules on result construction and flag assignments",
@@ -184,8 +193,9 @@ CLAIMS["C06"] = dict(
     text="The property is geometric and its distance clauses are NOT decided. Decided statically are only the plumbing clauses that are necessary "
          "conditions of 'orientation of the input (and ReverseSolution) is preserved' and '|delta| < 0.5 leaves the region unchanged': the "
          "clean-up union's 16-cell table (fill rule Negative iff paths reversed, output target, ReverseSolution(reverse_solution_ != "
-         "paths_reversed), PreserveCollinear), the insignificant-delta shortcut, the sign of the group delta for every end type, and the "
-         "definition of a reversed group; all extracted by interpreting the AST over the complete finite domain of the flags.",
+         "paths_reversed), PreserveCollinear), the insignificant-delta shortcut, the sign of the group delta for every end type, the "
+         "definition of a reversed group, the output target set by every Execute overload, closing-vertex stripping per end type, and "
+         "independence of the groups of one ClipperOffset (loop-carried-state dataflow); tables extracted by interpreting the AST over the complete finite domain of the flags.",
     note="Round / miter / square / bevel join geometry, tolerance bands, shrinking beyond the inradius: NOT decided.",
     technique="static analysis: interpreted decision tables over complete finite flag domains",
     design="§4 C06, §9", engine="E12")
@@ -194,7 +204,7 @@ CLAIMS["C19"] = dict(
     text="The swept-region equality is geometric and NOT decided. Decided statically are structural necessary conditions of detail::Minkowski and "
          "its four wrappers: empty input returns empty before anything is indexed; sum adds / difference subtracts the pattern point; the path's "
          "closing edge is swept iff isClosed; quad corners; every quad is made positively oriented before the NonZero union; wrappers pass the "
-         "right flags; PathD overloads scale in and out (dimensional analysis).",
+         "right flags; every call (recursion included) keeps pattern and path in their slots; PathD overloads scale in and out (dimensional analysis).",
     note="That the union of the parallelograms equals the swept region within 2 units is NOT decided.",
     technique="static analysis: AST rules and small interpreted tables",
     design="§4 C19, §9", engine="E12")
